@@ -1,13 +1,13 @@
 package simharness
 
 import (
-	"io"
-	"os"
-	"path/filepath"
 	"bytes"
 	"context"
 	"errors"
 	"fmt"
+	"io"
+	"os"
+	"path/filepath"
 	"strings"
 	"time"
 
@@ -206,15 +206,15 @@ func runChannelSink(rc *RunCtx) {
 		return
 	}
 	type cev struct {
-		id        int
-		ev        *el.Event
-		ctxMode   string // none, pre, deadline
-		deadline  time.Duration
-		err       error
-		out       *el.Event
-		returned  bool
-		t0, t1    time.Time
-		roomAtCall bool
+		id           int
+		ev           *el.Event
+		ctxMode      string // none, pre, deadline
+		deadline     time.Duration
+		err          error
+		out          *el.Event
+		returned     bool
+		t0, t1       time.Time
+		roomAtCall   bool
 		ctxErrAtCall bool
 	}
 	var evs []*cev
